@@ -212,6 +212,12 @@ func runH2(k *kernel.K, focus string) {
 	}
 	n.DefaultCap = []int{0, 4096, 65536, 600}[w.Pick([]int{3, 2, 2, 1})]
 	n.TCPLikeConns = w.Chance(1, 2)
+	if focus == "C09" {
+		n.ResetOnCloseWithUnread = n.TCPLikeConns && w.Chance(1, 2) // close(2) with unread input resets a TCP connection
+		if n.ResetOnCloseWithUnread {
+			k.Probe("network_resets_on_close_with_unread_input")
+		}
+	}
 	hw.start(factories)
 	cl, sv := hw.cl, hw.sv
 
@@ -564,6 +570,12 @@ func runH2(k *kernel.K, focus string) {
 			}
 			if mode == "slow_reader" {
 				rcv.C.Peer().Stall(false)
+				if w.Chance(1, 2) {
+					// while it catches up the receiver goes on talking (a PING here; credit returned
+					// for what it reads would do the same): bytes that reach the relay's side of
+					// the connection when the relay is about to close it
+					rcv.Do(&H2Op{Kind: "ping", Ping: [8]byte{0xac, 1}})
+				}
 			} else {
 				rcv.OpenAllWindows(streamsOf(snd.Sent))
 			}
